@@ -255,7 +255,10 @@ static void op_bn_set_bit(int argc, char **argv) {
 	if (argc < 4) { fprintf(OUT, "bad-args\n"); return; }
 	raw_parse(&ra, argv[1]);
 	bn_null(a); bn_new(a); raw_to_bn(a, &ra);
-	RLC_TRY { bn_set_bit(a, parse_int(argv[2]), parse_int(argv[3])); } RLC_CATCH_ANY { caught = 1; }
+	/* the digits above the most significant one are storage the library has not written: they must not become part of the value */
+	for (int i = a->used; i < (int)RLC_BN_SIZE; i++) a->dp[i] = (dig_t)0xA5A5A5A5A5A5A5A5ULL;
+	if (g_top) bn_set_bit(a, parse_int(argv[2]), parse_int(argv[3]));
+	else { RLC_TRY { bn_set_bit(a, parse_int(argv[2]), parse_int(argv[3])); } RLC_CATCH_ANY { caught = 1; } }
 	if (take_err() || caught) fprintf(OUT, "err\n"); else { bn_out(a); fprintf(OUT, "\n"); }
 }
 static void op_bn_set_2b(int argc, char **argv) {
